@@ -76,6 +76,39 @@ Theorem C19_cache_collision_refuted :
 Proof. exact cache_collision. Qed.
 Print Assumptions C19_cache_collision_refuted.
 
+(* several indexes in one process, each with its own key generator, model and cache
+   configuration: if configurations that name the same store agree on key generator and model
+   (distinct models => distinct stores; the harness checks that distinct cache_dirs are
+   distinct stores in the implementation), then after any interleaved history of calls every
+   index gets ITS model's vectors *)
+Theorem C19_cache_isolation :
+  forall (text key vec : Type)
+         (text_eq_dec : forall a b : text, {a = b} + {a <> b})
+         (key_eq_dec : forall a b : key, {a = b} + {a <> b})
+         (P : text -> Prop) (indexes : list (index text key vec)),
+    all_inj text key vec P indexes -> compatible text key vec indexes ->
+    forall (history : list (index text key vec * list text)) (a : index text key vec) (texts : list text),
+      Forall (fun c => In (fst c) indexes /\ Forall P (snd c)) history -> In a indexes -> Forall P texts ->
+      fst (mcall text_eq_dec key_eq_dec (mrun text_eq_dec key_eq_dec no_stores history) a texts)
+      = map (fun t => Some (ix_emb a t)) texts.
+Proof. exact multi_correct. Qed.
+Print Assumptions C19_cache_isolation.
+
+(* ... and the assumption is necessary: two indexes whose configurations name ONE store, with
+   one key for a text and different models - the second index gets the first model's vector *)
+Theorem C19_cache_shared_store_refuted :
+  forall (text key vec : Type)
+         (text_eq_dec : forall a b : text, {a = b} + {a <> b})
+         (key_eq_dec : forall a b : key, {a = b} + {a <> b})
+         (a b : index text key vec) (t : text),
+    ix_sid a = ix_sid b -> ix_kg a t = ix_kg b t -> ix_emb a t <> ix_emb b t ->
+    fst (mcall text_eq_dec key_eq_dec (mrun text_eq_dec key_eq_dec no_stores [(a, [t])]) b [t])
+    = [Some (ix_emb a t)] /\
+    fst (mcall text_eq_dec key_eq_dec (mrun text_eq_dec key_eq_dec no_stores [(a, [t])]) b [t])
+    <> map (fun t => Some (ix_emb b t)) [t].
+Proof. exact multi_shared_store_refuted. Qed.
+Print Assumptions C19_cache_shared_store_refuted.
+
 (* batching, safety: for every max_batch_size >= 1, every cache mode, every key generator
    injective on the texts in play, every consistent initial store and EVERY schedule of enabled
    steps (arrivals, timer expiry, model latency, task interleaving), a request that has
